@@ -25,6 +25,8 @@ theorem ctl_step {σ σ' : State} {a : Act} (h : Ctl σ) (hs : step σ a = some 
   cases a with
   | push d v => have e := step_push hs; subst e; cases d <;> constructor <;> simp_all [State.dir, State.setDir]
   | sendFail d => have e := step_sendFail hs; subst e; cases d <;> constructor <;> simp_all [State.dir, State.setDir]
+  | stall d => have e := step_stall hs; subst e; cases d <;> exact ⟨c1, c2, c3a, c3b, c3c, c4, c5, c6s, c6i⟩
+  | unstall d => have e := step_unstall hs; subst e; cases d <;> exact ⟨c1, c2, c3a, c3b, c3c, c4, c5, c6s, c6i⟩
   | iniCancel => have e := step_iniCancel hs; subst e; constructor <;> simp_all
   | shutdown => have e := step_shutdown hs; subst e; constructor <;> simp_all
   | tick => obtain ⟨h1, h2, h3, h4, e⟩ := step_tick hs; subst e; constructor <;> simp_all
